@@ -85,6 +85,17 @@ pub fn run(tier: Tier) -> i32 {
             one_text(&ctx, acc, &lang, &syms.join(" "));
         }
     });
+    // word-like literals of the current English module that no alphabet knows, around an 'o'
+    let news: Vec<String> = crate::vocab::new_source_literals(crate::langs::L::En).into_iter().filter(|w| !w.contains(' ') && w.chars().all(|c| c.is_alphabetic())).collect();
+    let mut acc_new = Acc::new();
+    for w in &news {
+        let a: Vec<String> = vec!["o".to_string(), "five".to_string(), "xyzzy".to_string(), ",".to_string(), w.clone()];
+        acc_new.merge(explore::all_sequences2(&a, 4, |syms, acc| {
+            if syms.iter().any(|s| *s == "o") && syms.iter().any(|s| s == w) {
+                one_text(&ctx, acc, &lang, &syms.join(" "));
+            }
+        }));
+    }
     let mut acc = explore::all_sequences2(&alphabet, k, |syms, acc| {
         if !syms.iter().any(|s| s.eq_ignore_ascii_case("o")) {
             return;
@@ -128,5 +139,6 @@ pub fn run(tier: Tier) -> i32 {
         "thresholds": T.iter().map(|t| thr_name(*t)).collect::<Vec<_>>(),
     });
     acc.merge(acc_infl);
+    acc.merge(acc_new);
     ctx.finish(acc, cov, vec!["a neighbour 'is a number word' iff it validates as a number on its own".into()])
 }
